@@ -97,6 +97,8 @@ def coq_case(c, r):
     if k == "u":
         return "(K12u %s %s %s %s)" % (cb(TRUTHY), ctext(c["s"]), copt(c["ref"], cq), copt(r["v"], cq))
     if k == "b":
+        if r["v"] is None:                             # every unit of this family is a supported one: None is a wrong answer, not a crash of the harness
+            return "(K12r 1 0%Z 2)"
         return "(K12b %s %s %s)" % (cq(c["d"]), cz(UCODE[c["u"]]), cq(r["v"]))
     if k == "g":
         attr = "None" if c["attr"] is None else "(Some %s)" % ctext(c["attr"])
